@@ -909,6 +909,19 @@ def gen_sql() -> str:
             line = line[1:].strip()
         if line:
             alts.append(line)
+    var_pat = ""
+    v = module_assign(m, "_VARIABLE_WITH_SUFFIX")
+    if isinstance(v, ast.Call) and ast.unparse(v.func) == "re.compile" and len(v.args) == 1 and isinstance(v.args[0], ast.Constant):
+        var_pat = v.args[0].value
+    fro = find_func(m, "is_readonly_sql")
+    first_test = ""
+    if fro is not None:
+        for st in fro.body:
+            if isinstance(st, ast.If):
+                first_test = ast.unparse(st.test)
+                break
+    if not var_pat or first_test != "_VARIABLE_WITH_SUFFIX.search(sql)":
+        MISSING.append("sql _VARIABLE_WITH_SUFFIX guard")
     tuples = []
     f = find_func(h, "classify")
     if f is not None:
@@ -937,6 +950,8 @@ def gen_sql() -> str:
         "def readonlyKeywords : List String := " + lean_list(ro),
         "def writeKeywords : List String := " + lean_list(wr),
         "def sqliteWrite : List String := " + lean_list(sw),
+        "/-- `_VARIABLE_WITH_SUFFIX` (SQLite's `$name(...)` variable tokens swallow quote characters) -/",
+        "def variableWithSuffixPattern : String := " + lean_str(var_pat),
         "/-- the alternatives of `_QUOTED_PATTERN`, in order -/",
         "def quotedAlternatives : List String := " + lean_list(alts, per_line=1),
         "/-- sqlite3 classify: the help tuple, the no-argument options, the one-argument options -/",
